@@ -458,7 +458,10 @@ void pt_fld(int *imi,
       use original input to check which group to affiliate with 0
       Soring changes first in IMD to assure symetry in adjustment.
   */
-  for ( j = 0; j < 5; j++ ) {
+  /* Each sweep labels one more layer of watershed points, keep sweeping until none
+     is left (the loop exits below as soon as all points are labelled) so that wide
+     watershed regions do not leave unlabelled bins behind */
+  for ( j = 0; j < nspec; j++ ) {
     for ( i = 0; i < nspec; i++ )
       imd[i] = imo[i];
     for ( jl = 0; jl < nspec; jl++ ) {
